@@ -433,6 +433,10 @@ def check_C15(ctx):
     wire_family(ctx, 'C15', scen, RUN_RULE % 'C15All (protocol x query counts x failing subsets x completion orders x public-IP on/off/failing)' +
                 '; non-trivial = at least one injected failure fired or more than one query ran',
                 nontrivial=lambda s, es: any(e['event'] == 'Fault' for e in es) or 'run' not in s or s['run']['queries'] + s['run']['e2e'] > 1)
+    # the real server binary on a real kernel path: exact counts also for a request that takes longer than a minute (about 65 s of real time)
+    rule = ctx_rule(ctx)
+    lab_family(ctx, 'C15', 'C15')
+    ctx.extra['rule'] = rule + '; plus KernelPath!C15Lab: the HTTP server binary in a network namespace, one request of 2 runs + 63 paced end-to-end probes'
     vt.write_evidence(ctx, 'model_checking', ctx_rule(ctx), exhaustive=not ctx.quick())
 
 def check_C19(ctx):
@@ -817,6 +821,48 @@ def lab_run(ctx, s, prefix, cli_bin, runner_bin):
                 dict({'event': 'Return', 'n': 2, 't': 0, 'scen': s['id'], 'panic': '', 'has_result': out['ok']}, **out),
             ]
         req = s['req']
+        if s.get('kind') == 'labsrv':
+            # the real HTTP server binary (Server.Start: its own listener and http.Server settings) in the tracer's namespace, one GET
+            srv_bin = os.path.join(ctx.scratch, 'traceroute-server')
+            port = 3765
+            srv = subprocess.Popen(['ip', 'netns', 'exec', tracer, srv_bin, '--addr', '127.0.0.1:%d' % port], stdout=subprocess.DEVNULL, stderr=subprocess.DEVNULL)
+            out = {'ok': False, 'err': '', 'runs': [], 'rtts_us': []}
+            t0 = _t.time()
+            try:
+                for _ in range(100):
+                    if vt.sh(['ip', 'netns', 'exec', tracer, 'sh', '-c', 'ss -ltn | grep -c :%d' % port]).stdout.strip() not in ('', '0'):
+                        break
+                    _t.sleep(0.05)
+                url = ('http://127.0.0.1:%d/traceroute?target=%s&protocol=%s&port=%d&traceroute-queries=%d&e2e-queries=%d&max-ttl=%d&timeout=%d'
+                       % (port, req['hostname'], req['protocol'], req['port'], req['queries'], req['e2e'], req['max_ttl'], req['timeout_ms']))
+                GET = ("import sys, urllib.request\n"
+                       "try:\n"
+                       "    r = urllib.request.urlopen(sys.argv[1], timeout=150)\n"
+                       "    sys.stdout.write(str(r.status) + '\\n' + r.read().decode())\n"
+                       "except Exception as e:\n"
+                       "    sys.stdout.write('ERR\\n' + repr(e))\n")
+                q = subprocess.run(['timeout', '170', 'ip', 'netns', 'exec', tracer, 'python3', '-c', GET, url], stdout=subprocess.PIPE, stderr=subprocess.PIPE, text=True, errors='replace')
+                head, _, body = q.stdout.partition('\n')
+                if head == '200':
+                    d = json.loads(body)
+                    runs = []
+                    for r in d['traceroute']['runs'] or []:
+                        runs.append({'src': r['source']['ip_address'], 'sport': r['source']['port'], 'dst': r['destination']['ip_address'], 'dport': r['destination']['port'],
+                                     'hops': [{'ttl': h['ttl'], 'addr': h['ip_address'] or '', 'rtt_us': int(round(h['rtt'] * 1000)), 'dest': False, 'reach': h['reachable']} for h in r['hops']]})
+                    out = {'ok': True, 'err': '', 'runs': runs, 'rtts_us': [int(round(x * 1000)) for x in (d['e2e_probe']['rtts'] or [])]}
+                else:
+                    out['err'] = ('no answer from the server: ' + q.stdout[-200:] + q.stderr[-100:])[:300]
+            finally:
+                srv.kill()
+            elapsed_ms = int((_t.time() - t0) * 1000)
+            return [
+                {'event': 'Begin', 'n': 0, 't': 0, 'idx': 0, 'twin': '', 'scen': s['id']},
+                {'event': 'Params', 'n': 1, 't': 0, 'scen': s['id'], 'variant': 'lab', 'entry': 'lab', 'strict': False, 'min': req['min_ttl'], 'max': req['max_ttl'],
+                 'timeout_us': req['timeout_ms'] * 1000, 'delay_us': 20000, 'poll_us': 100000, 'target': req['hostname'], 'port': req['port'], 'cancel_us': 0, 'filter': False,
+                 'queries': req['queries'], 'e2e': req['e2e'], 'cli': True, 'skip': False, 'srv': True, 'expect': s['expect'], 'bound_ms': 0},
+                {'event': 'Return', 'n': 2, 't': 0, 'scen': s['id'], 'ok': bool(out['ok']), 'panic': '', 'notsupported': False,
+                 'errmsg': out.get('err', '')[:200], 'runs': out['runs'], 'rtts_us': out['rtts_us'], 'has_result': bool(out['ok']), 'elapsed_ms': elapsed_ms},
+            ]
         if s['cli']:
             cmd = ['ip', 'netns', 'exec', tracer, cli_bin, '--proto', req['protocol'], '-p', str(req['port']), '-q', str(req['queries']), '-Q', str(req['e2e']),
                    '--max-ttl', str(req['max_ttl']), '--timeout', str(req['timeout_ms'])]
@@ -898,7 +944,7 @@ def lab_run(ctx, s, prefix, cli_bin, runner_bin):
         {'event': 'Begin', 'n': 0, 't': 0, 'idx': 0, 'twin': '', 'scen': s['id']},
         {'event': 'Params', 'n': 1, 't': 0, 'scen': s['id'], 'variant': 'lab', 'entry': 'lab', 'strict': False, 'min': req['min_ttl'], 'max': req['max_ttl'],
          'timeout_us': req['timeout_ms'] * 1000, 'delay_us': 20000, 'poll_us': 100000, 'target': req['hostname'], 'port': req['port'], 'cancel_us': 0, 'filter': False,
-         'queries': req['queries'], 'e2e': req['e2e'], 'cli': s['cli'], 'skip': bool(s.get('skip')), 'expect': s['expect'], 'bound_ms': int(s.get('bound_ms') or 0)},
+         'queries': req['queries'], 'e2e': req['e2e'], 'cli': s['cli'], 'skip': bool(s.get('skip')), 'srv': False, 'expect': s['expect'], 'bound_ms': int(s.get('bound_ms') or 0)},
         {'event': 'Return', 'n': 2, 't': 0, 'scen': s['id'], 'ok': bool(out['ok']), 'panic': '', 'notsupported': 'SACK not supported' in out.get('err', ''),
          'errmsg': out.get('err', '')[:200], 'runs': out['runs'], 'rtts_us': out['rtts_us'], 'has_result': bool(out['ok']), 'elapsed_ms': elapsed_ms},
     ]
@@ -925,6 +971,10 @@ def lab_setup(ctx, gen):
     p = vt.sh(['go', 'build', '-o', runner, '.'], cwd=os.path.join(vt.VERIF, 'lab', 'runner'), env=vt.goenv())
     if p.returncode != 0:
         raise Infra('building the lab runner failed: ' + p.stdout[-1500:])
+    if any(x.get('kind') == 'labsrv' for x in scen):
+        p = vt.sh(['go', 'build', '-o', os.path.join(ctx.scratch, 'traceroute-server'), './cmd/traceroute-server'], cwd=vt.REPO, env=vt.goenv())
+        if p.returncode != 0:
+            raise Infra('building the HTTP server binary failed: ' + p.stdout[-1500:])
     pid = os.getpid() % 10000
     def one(args):
         k, s = args
@@ -1004,8 +1054,14 @@ CHECKS = {
 
 def replay(ctx, path):
     scen = [json.loads(l) for l in open(os.path.join(path, 'scenario.ndjson')) if l.strip()]
-    vt.build_harness(ctx)
-    traces = vt.run_harness(ctx, scen, 'replay', shards=1)
+    if scen and str(scen[0].get('kind', '')).startswith('lab'):
+        # a kernel-lab configuration: rebuilt as namespaces, the binaries of the working tree run inside
+        _, run_all = lab_setup(ctx, 'C15' if scen[0]['kind'] == 'labsrv' else 'C13')
+        tp, _ = run_all(scen, 'replay')
+        traces = [tp]
+    else:
+        vt.build_harness(ctx)
+        traces = vt.run_harness(ctx, scen, 'replay', shards=1)
     viol = vt.observe(ctx, traces, [ctx.prop])
     for p, sid in viol:
         print('VIOLATION property=%s replay=%s' % (p, path))
